@@ -666,6 +666,13 @@ func c20XGrid(a float64) []float64 {
 	for k := -48; k <= 24; k++ {
 		set[math.Pow(10, float64(k)/4)] = true
 	}
+	// far below the grid: tiny normal and subnormal x (for small shapes x^a is still far from 0 there)
+	for _, k := range []int{-13, -14, -15, -16, -17, -18, -20, -25, -30, -40, -50, -75, -100, -150, -200, -250, -300} {
+		set[math.Pow(10, float64(k))] = true
+	}
+	for _, x := range []float64{2.2250738585072014e-308, 2.2250738585072009e-308, 1e-310, 1e-320, 5e-324} {
+		set[x] = true
+	}
 	for _, ctr := range []float64{1, a} { // both sides of the two tests that select series / continued fraction
 		for _, d := range []float64{1e-3, 1e-2, 1e-1} {
 			set[ctr*(1-d)] = true
